@@ -684,6 +684,12 @@ def formatResults (k n : Nat) (rs : List ServerResult) : CheckSummary :=
     countCorrupt := (rs.map (fun r => r.corrupt.eraseDups.length)).sum,
     countIncompatible := (rs.map (fun r => r.incompatible.eraseDups.length)).sum }
 
+/-! ## filenode.py `CiphertextFileNode._maybe_repair` -/
+
+/-- `if cr.is_healthy(): (no repair) else: (start the Repairer)`: a repair is attempted exactly when the check is
+    not healthy — a function of the distinct good share NUMBERS only (not of how many servers hold them) -/
+def repairDecision (k n : Nat) (rs : List ServerResult) : Bool := !(formatResults k n rs).healthy
+
 /-! ## filenode.py `CiphertextFileNode._gather_repair_results` -/
 
 /-- the keys of `sm`: the pre-repair check's sharemap (`cr.get_sharemap()`, i.e. the verified shares when
